@@ -27,14 +27,15 @@ IDX = (0, 1, 2, 3)
 
 
 class Case:
-    def __init__(self, rng):
+    def __init__(self, rng, N=None):
         self.rng = rng
         self.dyn = []  # numpy arrays
         self.steps = []
         self.models = []
         self.meta = []  # per map: dict(deps=set, hist=tuple, nsw=int)
         self.counter = 1.0
-        self.N = int(rng.choice([2, 3, 4]))
+        n = int(rng.choice([2, 3, 4]))
+        self.N = n if N is None else int(N)  # leading dimension of dense leaves
         self.K = int(rng.choice([2, self.N]))
         self.schema = gen_schema(rng, self)
         self.slots = list(schema_slots(self.schema))
@@ -404,13 +405,18 @@ def present_paths(node, limit=40):
     return out
 
 
-def gen_combine(case):
+def gen_combine(case, force=None):
+    """force: None | (op, src) - used to make sure every anchored mechanism is exercised."""
     rng = case.rng
     n = len(case.models)
     ops = ["or", "at_set", "at_update", "extend", "switch", "mask", "filter", "submap", "and"]
     w = np.array([22, 10, 6, 8, 13, 13, 13, 8, 7], dtype=float)
     op = str(rng.choice(ops, p=w / w.sum()))
     a = pick_map(case)
+    if force is not None:
+        op = force[0].split(":")[0]
+        if force[1] is not None:
+            a = force[1]
     if op == "or":
         b = pick_map(case, recent_bias=False)
         return {"op": "or", "a": a, "b": b, "how": str(rng.choice(["|", "|", "+", "merge"]))}
@@ -446,7 +452,7 @@ def gen_combine(case):
     if op == "switch":
         k = int(rng.integers(2, 4))
         maps = [pick_map(case, recent_bias=False) for _ in range(k)]
-        concrete = bool(rng.random() < 0.3)
+        concrete = bool(rng.random() < 0.3) and not (force is not None and force[0] == "switch:arr")
         if concrete:
             idx = int(rng.integers(0, k))
         else:
